@@ -16,7 +16,7 @@ def sl(n): return ','.join('St<%d>' % i for i in range(n))
 def mjob(name, prop, N=3, L=4, K=2, unwind=None, timeout=300, **defs):
     d = dict(NSTATES=N, STATE_LIST=sl(N), LIMIT=L, KSTEPS=K, PROP=prop)
     d.update(defs)
-    return Job(name, 'machine.cpp', d, unwind=unwind or 40, unwindset={'nondet_fill.0': 96}, timeout=timeout, prop=(prop * 100, prop * 100 + 99))
+    return Job(name, 'machine.cpp', d, unwind=unwind or 40, unwindset={'nondet_fill.0': 200}, timeout=timeout, prop=(prop * 100, prop * 100 + 99))
 
 HIST = dict(FFSM2_ENABLE_TRANSITION_HISTORY='')
 SER = dict(FFSM2_ENABLE_SERIALIZATION='')
@@ -328,6 +328,77 @@ def c17_jobs(tier):
         j = Job('self-copy-m0-k4-nopay', 'selfcomp.cpp', dict(ROLE=1, KSTEPS=4, MANUAL=0, PAYLOAD=0), unwind=8, unwindset={'nondet_fill.0': 200}, timeout=T, prop=(1700, 1799)); j.weight_gb = 6.0; J.append(j)
     return J
 
+SWITCHES = ['FFSM2_ENABLE_PLANS', 'FFSM2_ENABLE_SERIALIZATION', 'FFSM2_ENABLE_TRANSITION_HISTORY', 'FFSM2_ENABLE_LOG_INTERFACE',
+            'FFSM2_ENABLE_VERBOSE_DEBUG_LOG', 'FFSM2_ENABLE_STRUCTURE_REPORT', 'FFSM2_ENABLE_DEBUG_STATE_TYPE', 'FFSM2_DISABLE_TYPEINDEX']
+
+def c19_pre(tier, work):
+    """Regeneration step, complete finite enumerations (NOT solver verdicts): (i) every switch set compiles under every
+    standard with both compilers; (iii) include/ffsm2/machine.hpp is byte-identical to the amalgamation by tools/join.py."""
+    from concurrent.futures import ThreadPoolExecutor
+    variants, info = engine.header_variants(work)
+    out = dict(violations=[], inconclusive=[], report={})
+    os.makedirs(os.path.join(engine.OUT, 'replay'), exist_ok=True)
+    # (iii)
+    out['report']['amalgamation_byte_identical'] = info.get('join_identical')
+    if info.get('join_identical') is False:
+        rp = os.path.join(engine.OUT, 'replay', 'C19-amalgamation.json')
+        json.dump(dict(property='C19', kind='amalgamation', how='cd tools && python3 join.py (in a scratch copy) and cmp with include/ffsm2/machine.hpp'), open(rp, 'w'), indent=1)
+        out['violations'].append(dict(label='amalgamation:bytes-differ', replay=rp, job='join.py', trace='include/ffsm2/machine.hpp differs from the amalgamation of development/'))
+    elif info.get('join_identical') is None:
+        out['inconclusive'].append('join.py could not be run: %s' % info.get('join_error'))
+    # (i)
+    sets = [[SWITCHES[b] for b in range(8) if (m >> b) & 1] for m in range(256)] + [['FFSM2_ENABLE_ALL']]
+    stds = ('c++11', 'c++14', 'c++17', 'c++20')
+    compilers = ('g++', 'clang++-14')
+    src = os.path.join(engine.HARNESS, 'config_probe.cpp')
+    tasks = []
+    for vname, inc in variants:
+        for cxx in compilers:
+            for std in stds:
+                for sw in sets: tasks.append((vname, inc, cxx, std, sw))
+    def one(t):
+        vname, inc, cxx, std, sw = t
+        rc, o, _ = engine.run([cxx, '-std=' + std, '-fsyntax-only', '-w', '-I', inc] + ['-D' + x for x in sw] + [src], timeout=300)
+        return t, rc, o
+    bad = []
+    with ThreadPoolExecutor(max_workers=max(2, engine.NCPU)) as ex:
+        for t, rc, o in ex.map(one, tasks):
+            if rc != 0: bad.append((t, o))
+    out['report']['build_matrix'] = dict(switch_sets=len(sets), standards=list(stds), compilers=list(compilers), header_variants=[v[0] for v in variants],
+                                         compiles=len(tasks), failed=len(bad), exhaustive=True)
+    if bad:
+        rp = os.path.join(engine.OUT, 'replay', 'C19-build-matrix.json')
+        json.dump(dict(property='C19', kind='compile', failures=[dict(variant=t[0], compiler=t[2], std=t[3], switches=t[4], output=o[-1500:]) for t, o in bad[:40]], failed=len(bad)), open(rp, 'w'), indent=1)
+        t0, o0 = bad[0]
+        out['violations'].append(dict(label='build-matrix:%d-of-%d-fail' % (len(bad), len(tasks)), replay=rp, job='config_probe',
+                                      trace='%s -std=%s %s: %s' % (t0[2], t0[3], ' '.join('-D' + x for x in t0[4]), o0[-300:])))
+    return out
+
+def c19_jobs(tier):
+    J = []
+    T = 600 if tier == 'quick' else 2400
+    K = 2 if tier == 'quick' else 3
+    def cj(name, a, b, common=None, rtti=True, **kw):
+        c = dict(KSTEPS=K); c.update(common or {})
+        j = product_job(name, 'config.cpp', c, a, b, (1900, 1901), (1900, 1999), unwind=max(K + 3, 6), timeout=T, steps=K + 2, nch=12, ntr=28, **kw)
+        j.rtti = rtti; j.weight_gb = 2.0
+        return j
+    base = {}
+    if tier == 'quick':
+        pairs = [[x] for x in SWITCHES] + [['FFSM2_ENABLE_ALL'], ['FFSM2_ENABLE_PLANS', 'FFSM2_ENABLE_SERIALIZATION', 'FFSM2_ENABLE_TRANSITION_HISTORY']]
+    else:
+        pairs = [[SWITCHES[b] for b in range(8) if (m >> b) & 1] for m in range(1, 256)] + [['FFSM2_ENABLE_ALL']]
+    for i, sw in enumerate(pairs):
+        tag = '+'.join(x.replace('FFSM2_ENABLE_', '').replace('FFSM2_', '').lower() for x in sw) if len(sw) <= 3 else 'set%03d' % i
+        variant = dict(MANUAL=(i % 2), PAYLOAD=((i // 2) % 2))
+        J.append(cj('cfg-base-vs-%s' % tag, base, dict((x, '') for x in sw), common=variant))
+    # header variants: shipped single header vs development sources, same configuration
+    for manual, pay in ((0, 1), (1, 0)):
+        J.append(cj('hdr-shipped-vs-development-m%d-p%d' % (manual, pay), {}, {}, common=dict(MANUAL=manual, PAYLOAD=pay, FFSM2_DISABLE_TYPEINDEX='', FFSM2_ENABLE_PLANS='', FFSM2_ENABLE_TRANSITION_HISTORY=''), rtti=False))
+    J[-1].product = [('A_', {}, 'shipped'), ('B_', {}, 'development')]
+    J[-2].product = [('A_', {}, 'shipped'), ('B_', {}, 'development')]
+    return J
+
 def encoded_functions(job, work, inc):
     """FFSM2 functions reachable from the harness entry point, from the -O0 IR (at -O1 most are inlined into harness())."""
     wd = os.path.join(work, 'fenc-' + re.sub(r'\W', '_', job.name)); os.makedirs(wd, exist_ok=True)
@@ -340,8 +411,105 @@ def encoded_functions(job, work, inc):
     if rc: return ['(O0 IR failed for %s)' % job.name]
     return engine.functions_encoded(open(ll).read())
 
+TRANSLATOR_UB = ('ub:misaligned access', 'ub:load outside !range', 'ub:unreachable reached', 'ub:shift amount out of range', 'ub:division by zero',
+                 'ub:signed overflow', 'ub:signed division overflow', 'ub:llvm.assume violated', 'ub:heap call')
+
 def triage_ub(pid, job, r, work, variants, known, here):
-    return dict(violations=[], knowns=[], inconclusive=[])
+    """C18: every failing UB check gets a counterexample, which is replayed (a) against the native build of the real
+    code under UBSan+ASan, (b) against the natively compiled translated IR (which re-checks the same IR facts on real
+    addresses).  (a) or - for the facts the translator asserts itself - (b) confirm a violation; anything else is
+    listed as unconfirmed and makes the check inconclusive rather than raising an alarm."""
+    import fnmatch
+    out = dict(violations=[], knowns=[], inconclusive=[])
+    seen = {}
+    for u in r['ub_failed']:
+        key = re.sub(r'\s+', ' ', u['desc'])[:80]
+        seen.setdefault(key, u)
+    for key, u in list(seen.items())[:3]:
+        cmd = r['cmds'][u['variant']]
+        draws, trace_out, dt = engine.trace_for(cmd, u['prop'], job.timeout * 2, job.mem_gb)
+        inc = dict(variants)[u['variant']]
+        tag = '%s-ub%d' % (re.sub(r'\W', '_', job.name), abs(hash(key)) % 10000)
+        outs, err = engine.native_replay(job, work, inc, draws, tag, sanitize=True)
+        san = bool(outs) and any(o[1] != 0 or 'runtime error' in o[2] or 'AddressSanitizer' in o[2] for o in outs)
+        trn = False; trn_out = ''
+        texe = os.path.join(u['wd'], 'translated')
+        if os.path.exists(texe):
+            f = os.path.join(work, 'replay-' + tag, 'draws.txt')
+            rc, trn_out, _ = engine.run([texe, 'replay', f], timeout=60)
+            trn = 'UB:' in trn_out
+        rp = os.path.join(here, 'out', 'replay', '%s-%s-%s.json' % (pid, re.sub(r'[^A-Za-z0-9_.-]', '_', job.name), re.sub(r'[^A-Za-z0-9]+', '_', key)[:40]))
+        json.dump(dict(property=pid, kind='ub', sanitize=True, assert_id=key, job=dict(name=job.name, harness=job.harness, defines=job.defines, std=job.std, product=job.product, extra_c=job.extra_c,
+                                                                                         unwind=job.unwind, ub=True, olevel=job.olevel),
+                       variant=u['variant'], draws=draws, cbmc_property=u['prop'], check=u['desc'],
+                       sanitizer=[dict(build=o[0], rc=o[1], out=o[2][-1500:]) for o in (outs or [])], translated_replay=trn_out[-600:]), open(rp, 'w'), indent=1)
+        label = '%s:%s' % (job.family, key)
+        confirmed = san or (trn and any(key.startswith(t) for t in TRANSLATOR_UB))
+        if not confirmed:
+            out['inconclusive'].append('%s: UNCONFIRMED-UB %s (solver counterexample not confirmed by sanitizers or by the translated-IR replay; triage by reading) replay=%s' % (job.name, key, rp))
+            continue
+        kn = [x for x in known if x['prop'] == pid and fnmatch.fnmatch(label, x['match'])]
+        if kn: out['knowns'].append((kn[0], label, rp))
+        else: out['violations'].append(dict(label=label, replay=rp, job=job.name, trace='confirmed by %s; %s' % ('UBSan/ASan on the native build' if san else 'replay of the translated IR on real addresses', (outs[0][2] if outs else trn_out)[-300:])))
+    return out
+
+def alloc_scan(tier, work):
+    """Regeneration step (not a solver verdict): the IR of a TU instantiating the whole public API declares no allocation function."""
+    variants, _ = engine.header_variants(work)
+    out = dict(violations=[], inconclusive=[], report={})
+    pat = re.compile(r'^declare .*@(_Zn[wa]\w*|_Zd[la]\w*|malloc|calloc|realloc|free|aligned_alloc|posix_memalign|strdup)\(', re.M)
+    for vname, inc in variants:
+        for sw in (['FFSM2_ENABLE_ALL', 'FFSM2_ENABLE_LOG_INTERFACE'], ['FFSM2_ENABLE_ALL', 'FFSM2_ENABLE_VERBOSE_DEBUG_LOG', 'FFSM2_DISABLE_TYPEINDEX'], []):
+            ll = os.path.join(work, 'alloc-%s-%d.ll' % (vname, len(sw)))
+            rc, o, _ = engine.run(['clang++-14', '-std=c++11', '-O0', '-S', '-emit-llvm', '-w', '-I', inc] + ['-D' + x for x in sw] + [os.path.join(engine.HARNESS, 'config_probe.cpp'), '-o', ll], timeout=300)
+            if rc != 0: out['inconclusive'].append('allocation scan: probe does not compile (%s): %s' % (' '.join(sw), o[-300:])); continue
+            text = open(ll).read(); hits = sorted(set(pat.findall(text)))
+            out['report']['allocation_symbols %s [%s]' % (vname, ' '.join(sw) or 'no switches')] = hits or 'none'
+            if hits:
+                rp = os.path.join(engine.OUT, 'replay', 'C18-alloc-symbols.json'); os.makedirs(os.path.dirname(rp), exist_ok=True)
+                json.dump(dict(property='C18', kind='alloc-symbols', switches=sw, symbols=hits), open(rp, 'w'), indent=1)
+                out['violations'].append(dict(label='alloc:symbols:%s' % ','.join(hits), replay=rp, job='alloc_scan', trace='allocation functions referenced: %s' % hits))
+    return out
+
+def c18_jobs(tier):
+    J = []
+    T = 900 if tier == 'quick' else 3600
+    def ubj(j, olevel='O1'):
+        j.ub = True; j.olevel = olevel; j.prop = (1800, 1899); j.timeout = T; j.name = 'ub-' + j.name + ('-O0' if olevel != 'O1' else ''); j.validate = True
+        J.append(j); return j
+    pays = (3, 5, 11, 13) if tier == 'quick' else tuple(range(1, 17))
+    for k in pays:
+        kk = 1 if (tier == 'quick' and k == 11) else 2
+        ubj(mjob('m-n3-l2-k%d-pay%d' % (kk, k), 18, N=3, L=2, K=kk, PAYLOAD=k, OPS=CORE, **HIST))
+    ubj(mjob('m-n1-k2', 18, N=1, K=2, OPS=CORE | EVENTS))
+    ubj(mjob('m-n3-k2-events-head', 18, N=3, K=2, HEAD=1, OPS=EVENTS | 1, EVT=1))
+    ubj(mjob('m-n3-l2-k2-manual-all', 18, N=3, L=2, K=2, MANUAL=1, HEAD=1, PAYLOAD=5, OPS=ALLOPS, **dict(HIST, **SER)))
+    ubj(mjob('m-n4-ind', 18, N=4, K=1, INDUCTIVE=1, OPS=ALLOPS, **HIST))
+    ubj(mjob('m-n2-l2-k1-pay5', 18, N=2, L=2, K=1, PAYLOAD=5, OPS=CORE, **HIST), olevel='O0m')
+    ubj(pjob('plan-n2-cap2-upd-l1-edits', 18, cap=2, K=1, prefix=1, limit=1, NST=2, OPS=1, EDITS=1))
+    ubj(pjob('plan-n2-cap1-upd-ext-l1-payload', 18, cap=1, K=2, prefix=1, payload=1, limit=1, NST=2, OPS=5, EDITS=0))
+    for cap in ((1, 2, 3) if tier == 'quick' else (1, 2, 3, 4, 5, 6)):
+        for pay in (0, 1):
+            ubj(Job('tasks-cap%d-p%d' % (cap, pay), 'tasklist.cpp', dict(CAP=cap, MODE=0, PAYLOAD=pay), unwind=max(6, cap + 3), unwindset={'nondet_fill.0': 40 + 16 * cap}))
+    for w in ((1, 8, 13, 32) if tier == 'quick' else range(1, 33)):
+        ubj(Job('bs-w%d' % w, 'bitstream.cpp', dict(W=w, CAP=255, MODE=0), unwind=50, unwindset={'nondet_fill.0': 40}))
+    ubj(Job('bitwidth', 'bitstream.cpp', dict(MODE=1), unwind=50))
+    for cap in ((1, 8, 9, 255) if tier == 'quick' else BOUNDARY_CAPS):
+        ubj(Job('bits-cap%d' % cap, 'containers.cpp', dict(CAP=cap, MODE=0), unwind=cap + 6, unwindset={'nondet_fill.0': 4 * cap + 16}))
+        if cap < 255:
+            ubj(Job('static-cap%d' % cap, 'containers.cpp', dict(CAP=cap, MODE=1, ETYPE=2), unwind=cap + 6, unwindset={'nondet_fill.0': 4 * cap + 16}))
+            ubj(Job('dynamic-cap%d' % cap, 'containers.cpp', dict(CAP=cap, MODE=2, ETYPE=1), unwind=cap + 6, unwindset={'nondet_fill.0': 4 * cap + 16}))
+    for n in ((1, 2, 64) if tier == 'quick' else (1, 2, 3, 64, 128, 255)):
+        j = Job('disp-n%d' % n, 'dispatch.cpp', dict(NSTATES=n, STATE_LIST=sl(n), HEAD=n % 2, STAGES=3 if n <= 64 else 1), unwind=6, mem_gb=24, seeds=20)
+        j.weight_gb = 0.5 + n * n * 8.0 / (255 * 255); ubj(j)
+        j = Job('ser-n%d' % n, 'serial.cpp', dict(NSTATES=n, STATE_LIST=sl(n), MANUAL=1, HEAD=1, FULL=1 if n <= 16 else 0), unwind=6, unwindset={'nondet_fill.0': 64}, mem_gb=24, seeds=20)
+        j.weight_gb = 0.5 + n * n * 8.0 / (255 * 255); ubj(j)
+    j = product_job('self-prefill-m0-k2', 'selfcomp.cpp', dict(ROLE=0, KSTEPS=2, MANUAL=0), {}, {}, (1700, 1701), (1800, 1899), unwind=6, steps=4, nch=12, ntr=28)
+    j.unwindset['nondet_fill.0'] = 200; j.weight_gb = 4.0; ubj(j)
+    if tier != 'quick':
+        ubj(mjob('m-n3-l2-k2-pay11', 18, N=3, L=2, K=2, PAYLOAD=11, OPS=CORE, **HIST), olevel='O0m')
+        ubj(pjob('plan-n3-cap3-upd-l2-edits', 18, cap=3, K=1, prefix=1, limit=2, NST=3, OPS=1, EDITS=1))
+    return J
 
 B_MACHINE = dict(
     quick='machine shapes N in {1,2,3} (+N=4 inductive), substitution limit L=4, K<=3 API calls from construction with every callback behaviour symbolic, arbitrary prefill of the object storage; automatic+manual activation, with/without root head, payload {u32,u16}; plus one API call from every invariant state (any active state, any outstanding request)',
@@ -402,6 +570,16 @@ PROPS = {
                 bounds=dict(quick='3 states + root head, plans (capacity 2) + transition history + serialization + payload {u16}: (1) two constructions over independent arbitrary prefills driven by the same 2-step symbolic history: traces (callbacks, active state, previous transition, plan content, serialized form) identical; (2) copy taken before a symbolic step: observers equal at that moment, same traces afterwards, each side byte-unchanged while the other is driven; automatic and manual activation',
                             thorough='3-step histories, plus 4-step payload-free variants'),
                 outside='longer histories; move construction is exercised only through the shared CoreT code path (copy); reads of indeterminate memory that cannot influence behaviour (padding copies)'),
+    'C19': dict(range=(1900, 1999), jobs=c19_jobs, pre=c19_pre,
+                bounds=dict(quick='regeneration step (complete enumeration, not a solver verdict): 257 switch sets x 4 standards x 2 compilers compile; shipped header byte-identical to the amalgamation. Solver: feature-neutral 2-step symbolic scenario (transitions, guards, update, react; manual/automatic, payload/void) under the baseline vs each single switch, vs FFSM2_ENABLE_ALL, vs plans+serialization+history; shipped header vs development sources',
+                            thorough='same with 3-step scenario under the baseline vs all 255 other switch sets'),
+                outside='programs that use the enabled feature (their behaviour is the subject of the other properties); MSVC-only paths',
+                level_note='the compile matrix and the byte comparison are finite enumerations executed completely while the encodings are regenerated; they are reported under coverage.regeneration_step and are not solver verdicts. The behavioural part is decided by the solver on product encodings.'),
+    'C18': dict(range=(1800, 1899), jobs=c18_jobs, pre=alloc_scan, ub=True,
+                bounds=dict(quick='the machine, plan, task-list, bit-stream, container, dispatch (N in {1,2,64}), serialization and self-composition harnesses re-encoded with UB assertions: CBMC bounds/pointer/overflow/shift/division checks plus translator-inserted checks for every IR-level fact (access alignment incl. memcpy operands, !range of loads = invalid bool, reaching unreachable, shift amounts, nsw overflow, heap calls); payload types {u32},{u32,u16},alignas(16),{u64,u8}; plans at full capacity; one job from the -O0+mem2reg IR. Regeneration step: no allocation symbol declared by a TU instantiating the whole API',
+                            thorough='all 16 payload types, capacities up to 6, N=255, all 32 stream widths, more -O0 jobs'),
+                outside='UB that neither CBMC nor an IR-level fact exposes (e.g. strict-aliasing violations, lifetime rules beyond placement-new as written); reads of indeterminate values are decided through C17 (a read that can influence behaviour makes two prefills diverge)',
+                level_note='solver verdicts are per UB assertion; a counterexample is reported as a violation only if UBSan/ASan confirm it on the native build of the real code, or - for the IR facts the translator asserts itself - the natively compiled translated IR reproduces it on real addresses; unconfirmed counterexamples make the check inconclusive and are listed separately'),
     'C11': dict(range=(1100, 1199), jobs=c11_machine_jobs, bounds=dict(quick='N<=4, K<=3', thorough='N<=5, K<=4'), outside='as C01'),
 }
 
